@@ -17,13 +17,16 @@ cells across the shared side; a triangle's two white quarters are adjacent quart
 its area equals the area of its bounding box, taken either along the axes or along the diagonals (the area is a
 subset of both boxes, so equality of areas means equality of the sets up to their boundary).  That the module's local
 rules (shape of the neighbourhood of each triangle side, no grid point with exactly three white angles) characterise
-rectangles is a planar argument that is not formalised: this differential is the evidence for it.
+rectangles is proved in Lean (Properties/C11_Shakashaka.lean: `program_iff_rules` against the global rule of
+Spec/PuzzleRules/Shakashaka.lean, via `local_rules_iff_rectangles`); this differential checks the same thing on small boards.
 """
 import itertools
 
 NAME = "shakashaka"
-STATUS = "partial: planar argument (model + differential only)"
-THEOREMS = []
+STATUS = "theorem"
+THEOREMS = ["Cspuz.C11.Shakashaka.program_iff_rules", "Cspuz.C11.Shakashaka.total",
+            "Cspuz.C11.Shakashaka.local_rules_iff_rectangles"]
+LEAN_FILE = "C11_Shakashaka"
 LEAN_CMD = "puz_shakashaka"
 
 _SHAPES = [(1, 1), (1, 2), (2, 1), (1, 3), (3, 1), (2, 2), (2, 3), (3, 2), (1, 5), (5, 1), (3, 3), (2, 4), (4, 2), (3, 4), (4, 3), (2, 5), (5, 2)]
